@@ -23,9 +23,10 @@ def sh(cmd, cwd=None, env=None, timeout=3000):
 
 
 subprocess.run(f"git -C /repo worktree remove --force {wt}", shell=True, capture_output=True)
-rc, out = sh(f"git -C /repo worktree add -q {wt} HEAD")
+base = os.environ.get("EVAL_BASE", "HEAD")
+rc, out = sh(f"git -C /repo worktree add -q --detach {wt} {base}")
 assert rc == 0, out
-res = {"name": name, "source": f"{src}/m{k}.diff"}
+res = {"name": name, "source": f"{src}/m{k}.diff", "base_commit": subprocess.check_output(["git", "-C", wt, "log", "--format=%h", "-1"], text=True).strip()}
 try:
     os.makedirs(f"{wt}/out", exist_ok=True)
     for f in os.listdir(src):
